@@ -5,10 +5,101 @@
   Statements are those of Proofs/GenKernels.lean (shown by `#check` in the audit); restated through `type_of%`.
 -/
 import PdbVerif.Proofs.GenKernels
+import PdbVerif.Proofs.GenRmsdLines
+import PdbVerif.Proofs.GenRmsdFast
 
 namespace Props.C07K
 
 theorem genk_get_rmsd_radicand_eq_model : type_of% @Proofs.GenKernels.genk_get_rmsd_radicand_eq_model := @Proofs.GenKernels.genk_get_rmsd_radicand_eq_model
 theorem genk_get_rmsd_wrappers : type_of% @Proofs.GenKernels.genk_get_rmsd_wrappers := @Proofs.GenKernels.genk_get_rmsd_wrappers
+
+/-! non-vacuity of the zone computations and the fast routes: a two-chain table (chain A: two residues, chain B: one) -/
+def exAtom (serial : Int) (name : String) (chain : String) (resSeq : Int) (x : Rat) : Py.Atom :=
+  { serial := serial, name := name.toList, altLoc := [], resName := "ALA".toList, chainID := chain.toList, resSeq := resSeq, iCode := [],
+    x := x, y := 0, z := 0, occ := 1, temp := 0, element := "C".toList, model := 0 }
+def exTable : List Py.Atom := [exAtom 1 "N" "A" 1 0, exAtom 2 "CA" "A" 1 1, exAtom 3 "CA" "A" 2 2, exAtom 4 "CA" "B" 5 3]
+
+/-- the long chain is A (3 atoms against 1); with `save_file` the zone file of the model's text is the returned effect -/
+example : (match GenR.compute_lzone (fun _ => .ok exTable) "ref.pdb".toList true none with
+    | .ok (z, w) => z == [("A".toList, [1, 2])] && w == [("ref.lzone".toList, ["zone A1-A1\n".toList, "zone A2-A2\n".toList])]
+    | _ => false) = true := by decide +kernel
+example : (match GenR.compute_lzone (fun _ => .ok exTable) "ref.pdb".toList false none with
+    | .ok (z, w) => z == [("A".toList, [1, 2])] && w == [] | _ => false) = true := by decide +kernel
+/-- three chains: ValueError -/
+example : (match GenR.compute_lzone (fun _ => .ok (exTable ++ [exAtom 5 "CA" "C" 1 9])) [] false none with
+    | .error .valueError => true | _ => false) = true := by decide +kernel
+example : (match GenR.compute_izone (fun _ => .ok exTable) (fun _ _ _ _ => .ok [("A".toList, [1, 2]), ("B".toList, [3])]) "r.pdb".toList 10 true (some "z".toList) with
+    | .ok (z, w) => z == [("A".toList, [1, 2]), ("B".toList, [5])] && w == [("z".toList, ["zone A1-A1\n".toList, "zone A2-A2\n".toList, "zone B5-B5\n".toList])]
+    | _ => false) = true := by decide +kernel
+
+end Props.C07K
+
+/-! --------------------------------------------------------------------------------------------------------------------
+  APPENDED SECTION — translated raw-line readers and fast routes (tie #1 for the data flow of C07).
+  `GenR.*` (Gen/Rmsd.lean) is regenerated from StructureSimilarity.py on every run by py/translate_ext_rmsd.py; each theorem
+  states that the regenerated definition IS the hand model of Model/RmsdCommon.lean / RmsdFast.lean the theorems of
+  Props/C07.lean are about — for every list of lines, zone, name list and flag, error branches included.  The models parse all
+  ATOM lines first and filter afterwards and keep identity keys beside the coordinates; the equalities are between the
+  RETURNED values (keys dropped: `dropKeys`, `map (·.2)`; Python sets: `Rt.set` of the model's list, see `dataRet`).
+  Statements are those of Proofs/GenRmsdLines.lean, restated through `type_of%`.
+-------------------------------------------------------------------------------------------------------------------- -/
+
+namespace Props.C07K
+open Py Model Model.Rmsd Proofs.GenRmsd
+
+/-- `get_data_zone_backbone` (both return forms) = `Model.Rmsd.dataZoneBackbone` -/
+theorem genr_get_data_zone_backbone_eq_model : type_of% @Proofs.GenRmsd.genr_get_data_zone_backbone_eq_model := @Proofs.GenRmsd.genr_get_data_zone_backbone_eq_model
+/-- `get_xyz_zone_backbone` (both return forms) = `Model.Rmsd.xyzZoneBackbone` -/
+theorem genr_get_xyz_zone_backbone_eq_model : type_of% @Proofs.GenRmsd.genr_get_xyz_zone_backbone_eq_model := @Proofs.GenRmsd.genr_get_xyz_zone_backbone_eq_model
+/-- `_get_xyz` = `Model.Rmsd.getXyz` (stable sort by identity key) -/
+theorem genr_get_xyz_eq_model : type_of% @Proofs.GenRmsd.genr_get_xyz_eq_model := @Proofs.GenRmsd.genr_get_xyz_eq_model
+
+/-- `compute_lzone` = `Model.Rmsd.computeLzone` + `zoneOfResidues`; the file written is the model's `zoneText` -/
+theorem genr_compute_lzone_eq_model : type_of% @Proofs.GenRmsd.genr_compute_lzone_eq_model := @Proofs.GenRmsd.genr_compute_lzone_eq_model
+/-- `compute_izone` = `computeIzoneWith` (contact routine a parameter) + `zoneOfResidues`; the file written is `zoneText` -/
+theorem genr_compute_izone_eq_model : type_of% @Proofs.GenRmsd.genr_compute_izone_eq_model := @Proofs.GenRmsd.genr_compute_izone_eq_model
+/-- … and `computeIzoneWith` at the contact model with the arguments of `compute_izone` is `Model.Rmsd.computeIzone` -/
+theorem computeIzoneWith_model : type_of% @Proofs.GenRmsd.computeIzoneWith_model := @Proofs.GenRmsd.computeIzoneWith_model
+/-- `compute_lrmsd_fast` = zone stage, then the MODEL's list stage (`lrmsdLists`), then the translated kernel -/
+theorem genr_compute_lrmsd_fast_stages : type_of% @Proofs.GenRmsd.genr_compute_lrmsd_fast_stages := @Proofs.GenRmsd.genr_compute_lrmsd_fast_stages
+/-- `compute_irmsd_fast` likewise (`irmsdLists`) -/
+theorem genr_compute_irmsd_fast_stages : type_of% @Proofs.GenRmsd.genr_compute_irmsd_fast_stages := @Proofs.GenRmsd.genr_compute_irmsd_fast_stages
+/-- the hand models are `zone stage >>= the same list stage >>= kernelLists` -/
+theorem lrmsdFast_model_stages : type_of% @Proofs.GenRmsd.lrmsdFast_model_stages := @Proofs.GenRmsd.lrmsdFast_model_stages
+theorem irmsdFast_model_stages : type_of% @Proofs.GenRmsd.irmsdFast_model_stages := @Proofs.GenRmsd.irmsdFast_model_stages
+
+/-! non-vacuity: the generated readers evaluated on concrete records — a blank chain column with a segID (line 2), a negative
+    and a four-digit residue number, a non-ATOM record, a short line with free-format numbers, a line too short for column 22 -/
+def exL1 : Str := "ATOM      1  N   ALA A   1      11.104   6.134  -6.504  1.00  0.00           N  ".toList
+def exL2 : Str := "ATOM      2  CA  ALA     2      11.639   6.071  -5.147  1.00  0.00      B    C  ".toList
+def exL3 : Str := "ATOM      3  CB  ALA A  -3      12.000   6.000  -5.000  1.00  0.00           C  ".toList
+def exL4 : Str := "HETATM    4  O   HOH A   9      12.000   6.000  -5.000".toList
+def exL5 : Str := "ATOM      5  C   GLY A1234       1.5    -2.25     3e0".toList
+def exL6 : Str := "ATOM      6  O   GLY A  -3       0.0      0.0     0.0".toList
+def exRd (ls : List Str) : Str → Except Err (List Str) := fun _ => .ok ls
+def exZone : Zone := [("A".toList, [1, 1234, -3])]
+def exNames : List Str := ["C".toList, "CA".toList, "N".toList, "O".toList]
+
+example : (match GenR.get_data_zone_backbone (exRd [exL1, exL2, exL3, exL4, exL5, exL6]) [] exZone true exNames with
+    | .ok (.inl p) => p == ([("A".toList, 1, "N".toList), ("A".toList, 1234, "C".toList), ("A".toList, -3, "O".toList)],
+                            [("B".toList, 2, "CA".toList)])
+    | _ => false) = true := by decide +kernel
+example : (match GenR.get_data_zone_backbone (exRd [exL1, exL2]) [] exZone false exNames with
+    | .ok (.inr p) => p == [("A".toList, 1, "N".toList)] | _ => false) = true := by decide +kernel
+/-- `line[21]` on a short ATOM line is an IndexError, `int('    ')` a ValueError -/
+example : (match GenR.get_data_zone_backbone (exRd [exL1, "ATOM  ".toList]) [] exZone true exNames with
+    | .error .indexError => true | _ => false) = true := by decide +kernel
+example : (match GenR.get_data_zone_backbone (exRd ["ATOM      1  N   ALA A          11.104   6.134  -6.504".toList]) [] exZone true exNames with
+    | .error .valueError => true | _ => false) = true := by decide +kernel
+example : (match GenR.get_xyz_zone_backbone (exRd [exL1, exL2, exL3, exL4, exL5]) [] exZone true exNames with
+    | .ok (.inl p) => p == ([⟨11104/1000, 6134/1000, -6504/1000⟩, ⟨3/2, -9/4, 3⟩], [⟨11639/1000, 6071/1000, -5147/1000⟩])
+    | _ => false) = true := by decide +kernel
+/-- `_get_xyz` orders by identity key, not by file position -/
+example : (match GenR._get_xyz (exRd [exL5, exL1, exL6]) [] [("A".toList, 1234, "C".toList), ("A".toList, -3, "O".toList), ("A".toList, 1, "N".toList)] with
+    | .ok l => l == [⟨0, 0, 0⟩, ⟨11104/1000, 6134/1000, -6504/1000⟩, ⟨3/2, -9/4, 3⟩] | _ => false) = true := by decide +kernel
+/-- an instance of the theorem -/
+example : GenR.get_data_zone_backbone (exRd [exL1, exL2]) [] exZone true exNames =
+    exRd [exL1, exL2] [] >>= fun lines => dataZoneBackbone lines exZone exNames >>= fun p => Except.ok (dataRet true p) :=
+  genr_get_data_zone_backbone_eq_model _ _ _ _ _
 
 end Props.C07K
